@@ -354,6 +354,8 @@ def run_case(case: Dict) -> CaseResult:
     stats = {"completed": 0, "interrupted": 0, "merged": 0, "comp_during_fix": 0, "damage_during_scan": 0,
              "power": 0, "d0_ops": 0, "timed": 0}
     stop = False
+    done_kinds: set = set()
+    dur_seen: set = set()
 
     for i, op in enumerate(ops):
         ot = op_type(op)
@@ -405,6 +407,7 @@ def run_case(case: Dict) -> CaseResult:
                 stats["power"] += 1
             if created is not None:
                 stats["timed"] += 1
+                dur_seen.add(f"{created.kind}:d={created.d}")
                 if created.d == 0:
                     stats["d0_ops"] += 1
                 created.items0 = {k for k, v in cur.items() if k[0] != "node" and not v["del"]}
@@ -500,6 +503,7 @@ def run_case(case: Dict) -> CaseResult:
             if p.completed is None:
                 p.completed = kt
                 stats["completed"] += 1
+                done_kinds.add(p.kind)
 
         # ---- B. a successful instant scan publishes the true health -------------------------------------------------
         if ok and ot in ("sw-scan", "file-scan"):
@@ -545,6 +549,7 @@ def run_case(case: Dict) -> CaseResult:
                             offsets["fix"].add(kt - p.k0 - p.d)
                         p.completed = kt
                         stats["completed"] += 1
+                        done_kinds.add(p.kind)
                     else:
                         res.violate("fix-completes-early",
                                     f"{when}: {key[1]} went FIXING->GOOD {kt - p.k0} tick(s) after the fix request, "
@@ -570,6 +575,7 @@ def run_case(case: Dict) -> CaseResult:
                             offsets["restore"].add(kt - p.k0 - p.d)
                         p.completed = kt
                         stats["completed"] += 1
+                        done_kinds.add(p.kind)
                 else:
                     res.violate("restore-completes-early",
                                 f"{when}: {key} restored {kt - p.k0} tick(s) after the folder restore request, "
@@ -601,6 +607,7 @@ def run_case(case: Dict) -> CaseResult:
                                 offsets["restore"].add(kt - p.k0 - p.d)
                             p.completed = kt
                             stats["completed"] += 1
+                            done_kinds.add(p.kind)
                         elif kt < p.earliest:
                             res.violate("restore-completes-early",
                                         f"{when}: folder {p.target} left RESTORING {kt - p.k0} tick(s) after the "
@@ -694,6 +701,10 @@ def run_case(case: Dict) -> CaseResult:
     for k, v in stats.items():
         if v:
             res.label(f"has:{k}")
+    for k in sorted(done_kinds):
+        res.label(f"completed:{k}")
+    for k in sorted(dur_seen):
+        res.label(f"timed-op:{k}")
     res.label(f"len<{(len(ops) // 10 + 1) * 10}")
     return res
 
@@ -861,6 +872,13 @@ def worker(ctx: Ctx):
         # every straight-line program plus every 2nd interference variant
         cases = [c for j, c in enumerate(cases) if _straight(c["ops"]) or j % 2 == 0]
     enum_run(ctx, cases, run_case)
-    ctx.extra["enumerated_family"] = len(cases)
+    if ctx.idx == 0:
+        ctx.extra["enumerated_family_cases"] = len(cases)
+        ctx.extra["enumerated_family"] = (
+            "10 programs (service/application/defaults fix, folder scan on created/root/database folder, node scan "
+            "via node key / defaults key, folder restore, fs-level restore of a deleted folder) x durations "
+            "{0,1,2,3,5}: straight line, and with each of 13 interfering events at every tick position"
+            + ("" if ctx.tier == "thorough" else " (quick: every straight-line case, every 2nd interference case)")
+        )
     n = 200 if ctx.tier == "quick" else 6000
     hyp_run(ctx, case_strategy(30), run_case, n)
